@@ -213,6 +213,7 @@ func simC20(c *Ctx, cs *c20case, code string, tapes *simrt.Tapes) *c20result {
 	res := &c20result{}
 	c.Bubble(func() {
 		s := simrt.New(tapes)
+		s.EnableHB()
 		s.KeepTrace = c.Knobs["trace"] != ""
 		env := &c20env{cs: cs}
 		s.Spawn("main", func() {
@@ -243,6 +244,9 @@ func simC20(c *Ctx, cs *c20case, code string, tapes *simrt.Tapes) *c20result {
 		res.evs = env.evs
 		res.maxRun = env.maxRun
 		c.FinishSim(s, v)
+		if v == nil {
+			c.ReportRaces(s)
+		}
 	})
 	return res
 }
